@@ -119,7 +119,19 @@ Theorem C13_form_text_refused :
 Proof. exact C13_form_text_refused_lemma. Qed.
 Print Assumptions C13_form_text_refused.
 
-(* _get_body_string in closed form (threshold >= 0): what it returns and when it refuses *)
+(* After fix F37 (ca2ec78): under a chunked transfer coding the text handed to the
+   parser — and whether it is refused — does not depend on a Content-Length sent
+   next to it (absent, 0, small, larger than the body, larger than the threshold):
+   _body reads the chunked decoder whatever it says and _get_body_string uses -1.
+   So the chunked half of C13_form_text_refused holds for every Content-Length. *)
+Theorem C13_form_text_chunked_ignores_content_length :
+  forall (s : stream) (buf : nat) (maxb : option nat) (cl cl' : Z),
+    form_text s buf maxb cl true = form_text s buf maxb cl' true.
+Proof. exact C13_form_text_chunked_ignores_cl_lemma. Qed.
+Print Assumptions C13_form_text_chunked_ignores_content_length.
+
+(* _get_body_string in closed form (threshold >= 0): what it returns and when it refuses
+   ([cl] is the value the function works with: -1 for a chunked request, else content_length) *)
 Theorem C13_get_body_string_spec :
   forall (body : list N) (cl maxm : Z),
     (0 <= maxm)%Z ->
